@@ -7,9 +7,11 @@
                                          query > environment > default vocabulary > {labelN} > empty)
      caskethttp/httpserver/recorder.go   ResponseRecorder.WriteHeader / Write
      caskethttp/log/setup.go             logParse + appendEntry (one rule per distinct scope string,
-                                         the exception list shared by all log directives of a site)
-     caskethttp/log/log.go               Logger.ServeHTTP (first matching rule, fallback error
-                                         response written through the recorder, one line per entry)
+                                         one exception list per log directive)
+     caskethttp/log/log.go               Logger.ServeHTTP (served when some rule matches, a panic of the
+                                         inner handler turned into status 500, fallback error
+                                         response written through the recorder, one line per entry
+                                         of every matching rule)
      caskethttp/errors/errors.go         ErrorHandler.ServeHTTP / recovery (as a script transformer)
      caskethttp/httpserver/server.go     Server.ServeHTTP's fallback error response and recover
    The scanning primitives (find_unescaped, unescape_braces, trim_prefix_bsl) are those of
@@ -282,8 +284,11 @@ Inductive wop :=
 Record uw := { u_status : option Z; u_size : N }.
 Definition uw0 : uw := {| u_status := None; u_size := 0 |}.
 (* w_nethttp: net/http's response (no body for 1xx/204/304, HEAD bodies accepted and dropped);
-   otherwise the harness's scripted writer *)
+   otherwise the harness's scripted writer.  w_head: the request's method is HEAD *)
 Record wcfg := { w_nethttp : bool; w_head : bool }.
+(* a HEAD request is answered through a writer that sends no body (HTTP requires it, net/http
+   does it) *)
+Definition head_ok (c : wcfg) : bool := implb (w_head c) (w_nethttp c).
 
 Definition body_forbidden (code : Z) : bool :=
   ((code =? 204) || (code =? 304) || ((100 <=? code) && (code <? 200)))%Z.
@@ -302,17 +307,24 @@ Definition uw_write (c : wcfg) (u : uw) (len : N) (fail : option N) : uw * N * b
        | None => ({| u_status := u_status u1; u_size := u_size u1 + len |}, len, false)
        end.
 
-(* ResponseRecorder *)
-Record rec := { r_status : Z; r_size : N }.
-Definition rec0 : rec := {| r_status := 200; r_size := 0 |}.
+(* ResponseRecorder: like net/http it records the status that commits the response — the first
+   WriteHeader with a final (non-informational) code, or the implicit 200 of the first Write;
+   later WriteHeader calls do not change it *)
+Record rec := { r_status : Z; r_size : N; r_wrote : bool }.
+Definition rec0 : rec := {| r_status := 200; r_size := 0; r_wrote := false |}.
+(* 1xx other than 101: an informational header, which does not commit the response *)
+Definition informational (code : Z) : bool :=
+  ((100 <=? code) && (code <=? 199) && negb (code =? 101))%Z.
 
 Definition step (c : wcfg) (s : uw * rec) (o : wop) : uw * rec :=
   let '(u, r) := s in
   match o with
-  | OWH code => (uw_wh u code, {| r_status := code; r_size := r_size r |})
+  | OWH code => (uw_wh u code,
+                 if negb (r_wrote r) && negb (informational code)
+                 then {| r_status := code; r_size := r_size r; r_wrote := true |} else r)
   | OW len fail =>
       let '(u', n, err) := uw_write c u len fail in
-      (u', if err then r else {| r_status := r_status r; r_size := r_size r + n |})
+      (u', {| r_status := r_status r; r_size := if err then r_size r else r_size r + n; r_wrote := true |})
   | OPanic => s
   end.
 (* run a handler script; true = it panicked *)
@@ -335,13 +347,12 @@ Fixpoint append_entry (rules : list rule) (scope : bytes) (e : entry) : list rul
                then {| ru_scope := ru_scope r; ru_entries := ru_entries r ++ [e] |} :: rs
                else r :: append_entry rs scope e
   end.
-(* logParse: `logExceptions` is declared outside the per-directive loop, so every directive's
-   logger also carries the exceptions of the directives before it *)
-Fixpoint parse_logs (ds : list directive) (i : nat) (acc : list bytes) (rules : list rule) : list rule :=
+(* logParse: `logExceptions` is declared inside the per-directive loop, so every directive's
+   logger carries exactly the `except` paths written in its own block *)
+Fixpoint parse_logs (ds : list directive) (i : nat) (rules : list rule) : list rule :=
   match ds with
   | [] => rules
-  | d :: r => let exc := acc ++ d_except d in
-              parse_logs r (S i) exc (append_entry rules (d_scope d) {| n_id := i; n_except := exc |})
+  | d :: r => parse_logs r (S i) (append_entry rules (d_scope d) {| n_id := i; n_except := d_except d |})
   end.
 
 Definition should_log (cs : bool) (exc : list bytes) (path : bytes) : bool :=
@@ -355,22 +366,32 @@ Definition err_ops (tbl : list (Z * N)) (ek : N) (code : Z) : list wop :=
   [OWH code; OW (if ek =? 0 then tlook tbl code - 1 else tlook tbl code) None].
 
 Definition line := (nat * Z * N)%type.    (* (log directive / entry id, {status}, {size}) *)
+(* getSubstitution's {size}: the recorder's byte count, 0 when the request's method is HEAD *)
+Definition logged_size (c : wcfg) (r : rec) : N := if w_head c then 0 else r_size r.
 
-(* log.Logger.ServeHTTP: result = writer state, returned status, panicked, lines written *)
+(* Logger.entries: the entries of every rule whose scope contains the path, in rule order *)
+Definition matching_entries (cs : bool) (rules : list rule) (path : bytes) : list entry :=
+  flat_map ru_entries (filter (fun r => path_matches cs path (ru_scope r)) rules).
+
+(* log.Logger.ServeHTTP: result = writer state, returned status, panicked, lines written.
+   [path] is the path the CLIENT requested: the middleware copies the URL before calling the
+   next handler (preURL) and judges scopes and exceptions on that copy; inner middleware
+   (rewrite, ext, ...) and handlers change r.URL.Path in place, which must not (and in the
+   model cannot) influence which logs get a line — the harness drives such rewrites *)
 Definition log_serve (c : wcfg) (cs : bool) (tbl : list (Z * N)) (ek : N) (rules : list rule)
            (path : bytes) (ops : list wop) (ret : Z) (u : uw) : uw * Z * bool * list line :=
   match find (fun r => path_matches cs path (ru_scope r)) rules with
   | None => let '((u', _), p) := run c (u, rec0) ops in (u', ret, p, [])
-  | Some r =>
+  | Some _ =>
     let '((u1, r1), p) := run c (u, rec0) ops in
-    if p then (u1, ret, true, [])
-    else
+    (* serveNext: a panic of the handler is recovered and becomes the status 500 *)
+    let ret1 := if p then 500%Z else ret in
       let '((u2, r2), ret') :=
-        if (400 <=? ret)%Z then (fst (run c (u1, r1) (err_ops tbl ek ret)), 0%Z)
-        else ((u1, r1), ret) in
+        if (400 <=? ret1)%Z then (fst (run c (u1, r1) (err_ops tbl ek ret1)), 0%Z)
+        else ((u1, r1), ret1) in
       (u2, ret', false,
-       map (fun e => (n_id e, r_status r2, r_size r2))
-           (filter (fun e => should_log cs (n_except e) path) (ru_entries r)))
+       map (fun e => (n_id e, r_status r2, logged_size c r2))
+           (filter (fun e => should_log cs (n_except e) path) (matching_entries cs rules path)))
   end.
 
 (* errors.ErrorHandler sits inside log and writes to the same writer: as a script transformer *)
@@ -405,7 +426,7 @@ Definition inner_flat (tbl : list (Z * N)) (haserr hdrw : bool) (ops : list wop)
 Definition site_serve (c : wcfg) (cs : bool) (tbl : list (Z * N)) (haserr hdrw : bool)
            (ds : list directive) (path : bytes) (ops : list wop) (ret : Z) : Z * N * list line :=
   let '(ops1, ret1) := inner_flat tbl haserr hdrw ops ret in
-  let '(u, ret2, p, lines) := log_serve c cs tbl 1 (parse_logs ds 0 [] []) path ops1 ret1 uw0 in
+  let '(u, ret2, p, lines) := log_serve c cs tbl 1 (parse_logs ds 0 []) path ops1 ret1 uw0 in
   let u' := if p then fst (fst (run c (u, rec0) (err_ops tbl 1 500)))
             else if (400 <=? ret2)%Z then fst (fst (run c (u, rec0) (err_ops tbl 1 ret2)))
             else u in
@@ -414,33 +435,21 @@ Definition site_serve (c : wcfg) (cs : bool) (tbl : list (Z * N)) (haserr hdrw :
 (* ---- shapes of handler scripts and configurations used by the theorems --------------------- *)
 Definition no_panic (ops : list wop) : bool :=
   forallb (fun o => match o with OPanic => false | _ => true end) ops.
-Definition no_wh (ops : list wop) : bool :=
-  forallb (fun o => match o with OWH _ => false | _ => true end) ops.
-(* casket's handler contract as far as the writer is concerned: at most one WriteHeader, and
-   only before the first Write *)
-Definition wb (ops : list wop) : bool :=
-  match ops with
-  | OWH _ :: r => no_wh r
-  | _ => no_wh ops
-  end.
+(* every WriteHeader code is a final one (the writer model commits on every WriteHeader: 1xx
+   informational headers are outside it, see the assumptions) *)
+Definition final_codes (ops : list wop) : bool :=
+  forallb (fun o => match o with OWH code => negb (informational code) | _ => true end) ops.
 (* what the log middleware adds itself when the handler returned [ret] *)
 Definition fallback (tbl : list (Z * N)) (ek : N) (ret : Z) : list wop :=
   if (400 <=? ret)%Z then err_ops tbl ek ret else [].
-(* all log directives of the site have the same scope *)
-Definition uniform_scope (sc : bytes) (ds : list directive) : Prop := forall d, In d ds -> d_scope d = sc.
-(* only the last log directive has an except list *)
-Fixpoint exc_only_last (ds : list directive) : Prop :=
-  match ds with
-  | [] => True
-  | d :: r => match r with [] => True | _ => d_except d = [] /\ exc_only_last r end
-  end.
 Definition ids_of (ls : list line) : list nat := map (fun l => fst (fst l)) ls.
 
 (* ---- executable statement of the property on observations --------------------------------- *)
 Definition count_id (i : nat) (ls : list line) : nat :=
   length (filter (fun l => Nat.eqb (fst (fst l)) i) ls).
-(* a configured log owes the request one line iff the request is inside its scope and not
-   excepted by ITS OWN except list *)
+(* a configured log owes the request one line iff the request — the path the client asked
+   for, whatever inner directives rewrite it to — is inside its scope and not excepted by ITS
+   OWN except list *)
 Definition owes (cs : bool) (d : directive) (path : bytes) : bool :=
   path_matches cs path (d_scope d) && should_log cs (d_except d) path.
 Fixpoint counts_ok (cs : bool) (ds : list directive) (i : nat) (path : bytes) (ls : list line) : bool :=
@@ -471,13 +480,15 @@ Fixpoint rule_counts_ok (cs : bool) (rs : list rule) (path : bytes) (ls : list l
 Inductive case :=
 (* NewReplacer(request, recorder, empty).Replace(fmt) *)
 | CRepl (fmt : bytes) (e : renv) (obs_panic : bool) (obs : bytes)
-(* log.Logger{Rules, ErrorFunc}.ServeHTTP over the harness's scripted writer and handler:
+(* log.Logger{Rules, ErrorFunc}.ServeHTTP over the harness's scripted writer and handler
+   (which may set r.URL.Path to another path before answering; [path] is the requested one):
    obs = lines (entry id, status, size), committed status of the writer (0 = none), bytes
    delivered, returned status, panicked *)
 | CLog (cs : bool) (rules : list rule) (ek : N) (path : bytes) (ops : list wop) (ret : Z)
        (tbl : list (Z * N)) (obs_lines : list line) (obs_ustatus : Z) (obs_usize : N)
        (obs_ret : Z) (obs_panic : bool)
-(* one HTTP/1.1 request to a running site with the given log directives (+ errors):
+(* one HTTP/1.1 request for [path] to a running site with the given log directives (+ errors;
+   a rewrite / ext directive or the handler may rewrite r.URL.Path: that shows in [e] only):
    obs = status and body length seen by the client, the lines found in the log files
    (directive index, {status}, {size}), and the request-derived tail of each line;
    modelled = false: a gzip directive sits between log and the handler (sizes are those of the
@@ -504,8 +515,9 @@ Fixpoint judge1 (c : case) : bool * bool :=
       let agree := Bool.eqb p op && list_beq line_beq ls ol &&
                    (uw_obs_status u =? ous)%Z && (u_size u =? ousz) &&
                    (op || (r =? oret)%Z) in
-      let spec := op || (rule_counts_ok cs rules path ol &&
-                         lines_exact (if (ous =? 0)%Z then 200%Z else ous) ousz ol) in
+      (* a panic of the handler may get past the middleware only when no line is owed *)
+      let spec := rule_counts_ok cs rules path ol &&
+                  (op || lines_exact (if (ous =? 0)%Z then 200%Z else ous) ousz ol) in
       (agree, spec)
   | CSite modelled haserr hdrw head ds path ops ret tbl ost osz ol tf e otails =>
       let wc := {| w_nethttp := true; w_head := head |} in
